@@ -118,6 +118,9 @@ structure Holds {σ : Type} [PairState σ] (Good : σ → Bool) (OrientOnly : σ
   /-- an operation touches only the pairs it names -/
   frame : ∀ g op a b, (∀ e ∈ op.pairs, (a, b) ≠ PairMap.key e.1 e.2) → (step g op).1 a b = g a b
 
+instance (s s' : PBits) : Decidable (OrientOnlyP s s') := by unfold OrientOnlyP; infer_instance
+instance (s s' : CBits) : Decidable (OrientOnlyC s s') := by unfold OrientOnlyC; infer_instance
+
 theorem GoodP_swap (s : PBits) : GoodP s.swap = GoodP s := by
   rcases s with ⟨a, b, c, d, e, f⟩
   revert a b c d e f; decide
